@@ -285,6 +285,32 @@ def win_prefix_sweep(ctx, root):
                 ctx.count('win_prefix_strings')
 
 
+def group_shape_sweep(ctx, root):
+    """Constructs that have a meaning of their own at a segment start (`**`, `***`, `.`, `..`, `!`, `-`, `~`, separators, brackets)
+    placed at the start / middle / end of every kind of extended list, closed and unclosed, under the path-mode flag sets."""
+    inner = ['**', '**/', '**/a', '***', '***/a', 'a/**', '.', '..', './a', '../', '/', '//', '/a', 'a/', '!', '!a', '-a', '~', '~/a', '[', '[a', '[/]',
+             '[a/b]', '\\', '\\/', '', '|', '**|a', 'a|**', '*|**/', '@(**)', '!(**/a)', '{**,a}', '**(', ')']
+    frames = ['{k}({x})', '{k}({x}', 'a/{k}({x})', '{k}({x})/b', '{k}(a|{x})', '{k}({x}|b)/c', 'a{k}({x})', '{k}({k}({x}))', '**/{k}({x})', '{k}({x})**']
+    fsets = [('EXTMATCH', 'GLOBSTAR'), ('EXTMATCH', 'GLOBSTAR', 'GLOBSTARLONG', 'DOTMATCH'), ('EXTMATCH', 'GLOBSTAR', 'MATCHBASE'),
+             ('EXTMATCH', 'GLOBSTAR', 'NEGATE', 'SPLIT'), ('EXTMATCH', 'GLOBSTAR', 'BRACE', 'GLOBTILDE'), ('EXTMATCH',),
+             ('EXTMATCH', 'GLOBSTAR', 'FORCEWIN'), ('EXTMATCH', 'GLOBSTAR', 'NODOTDIR', 'NODIR')]
+    idx = 0
+    for k in '@!*+?':
+        for fr in frames:
+            for x in inner:
+                idx += 1
+                if ctx.quick and (idx * 2654435761) % 100 >= 50:
+                    continue
+                if not ctx.mine(idx):
+                    continue
+                text = fr.replace('{k}', k).replace('{x}', x)
+                for fnames in (fsets[idx % len(fsets)], fsets[(idx // 7) % len(fsets)]):
+                    with ctx.case(label=(text, fnames)):
+                        exercise(ctx, text, fnames, root, idx % 3 == 0)
+                    ctx.mark_nontrivial((text, fnames))
+                ctx.count('group_shape_strings')
+
+
 def strings(alpha, n):
     for tup in itertools.product(alpha, repeat=n):
         yield ''.join(tup)
@@ -316,6 +342,7 @@ def run(ctx):
             ctx.count('malformed_semantics_checked', 0)
         bracket_sweep(ctx, 5 if quick else 6)
         win_prefix_sweep(ctx, root)
+        group_shape_sweep(ctx, root)
 
         def exhaustive():
             idx = 0
